@@ -10,7 +10,6 @@ CONSTANTS
   Ops <- mcOps
   ProbeLrus <- mcProbe
   MaxLevel = 4
-  EmitT = FALSE
-INVARIANT EmitAll
+  EmitT = TRUE
 VIEW View
 CHECK_DEADLOCK FALSE
